@@ -848,12 +848,50 @@ def _delay_on_paths(ctx: Ctx, rl: RL, f: Func, g: CFG, c: ast.Call, asg: dict[st
     reach = walk(g, asg, cl)
     if not any(n in reach for n in _nodes_with(g, c)):
         return ["<unreachable>"]
-    vals = []
-    for n in g.reachable():
-        if n in reach and n.kind == "stmt" and isinstance(n.ast, ast.Assign) and any(isinstance(t, ast.Name) and t.id == arg.id for t in n.ast.targets):
-            v = ctx.sym.eval(n.ast.value, f.module.name)
-            vals.append(v if isinstance(v, (int, float)) else f"<{norm(n.ast.value)}>")
-    return sorted(set(vals), key=str)
+    # reaching definitions of the argument at the call, over the nodes that are reachable under the assignment (a
+    # default bound before a branch is overwritten on the branch that rebinds it)
+    def assigned(n: Node):
+        a = n.ast
+        if n.kind != "stmt":
+            return None
+        if isinstance(a, ast.Assign) and any(isinstance(t, ast.Name) and t.id == arg.id for t in a.targets):
+            return a.value
+        if isinstance(a, ast.AnnAssign) and a.value is not None and isinstance(a.target, ast.Name) and a.target.id == arg.id:
+            return a.value
+        return None
+
+    def val_of(e: ast.expr):
+        v = ctx.sym.eval(e, f.module.name)
+        return v if isinstance(v, (int, float)) else f"<{norm(e)}>"
+
+    def feasible(p_: Node, l_: str) -> bool:
+        # the edge of a decided test that contradicts the assignment is not taken
+        if p_.kind != "cond" or l_ not in ("true", "false"):
+            return True
+        k = cl(p_)
+        if k is None or k[0] not in asg:
+            return True
+        return (l_ == "true") == (asg[k[0]] == k[1])
+
+    IN: dict[Node, frozenset] = {n: frozenset() for n in reach}
+    OUT: dict[Node, frozenset] = {n: frozenset() for n in reach}
+    changed = True
+    while changed:
+        changed = False
+        for n in g.reachable():
+            if n not in reach:
+                continue
+            i = frozenset().union(*[OUT[p_] for l_, p_ in n.pred if p_ in reach and l_ != "exc" and feasible(p_, l_)]) if n.pred else frozenset()
+            e = assigned(n)
+            o = frozenset([val_of(e)]) if e is not None else i
+            if i != IN[n] or o != OUT[n]:
+                IN[n], OUT[n] = i, o
+                changed = True
+    vals = set()
+    for n in _nodes_with(g, c):
+        if n in reach:
+            vals |= IN[n]
+    return sorted(vals, key=str)
 
 
 # =========================================================================== R4
